@@ -78,6 +78,9 @@ func (array *Array) Append(msg *Message) {
 
 // Size returns the array size.
 func (array *Array) Size() int {
+	if array == nil {
+		return 0
+	}
 	return len(array.msgs)
 }
 
